@@ -22,6 +22,8 @@ import ast
 import os
 import re
 
+OUTPUTS = ['OalPrec.lean']
+
 EXPR_LHS = {
     'expression', 'constant', 'variable_access', 'field_access', 'index_access', 'structure', 'array', 'param',
     'param_access', 'self_access', 'selected_access', 'invocation', 'implicit_invocation', 'function_invocation',
